@@ -7,7 +7,8 @@
 //        "scripts":[[[opcode,arg],...] per thread],"sched":[actor...],"free":bool,
 //        "inst":[instance per thread],"ns":[capacity per instance]}   (several instances at once)
 // lim opcodes: 0 Borrow, 1 TryBorrow, 2 Return, 3 TimeoutLimit.Borrow(arg=1: zero timeout),
-//              4 TimeoutLimit.Return, 5 HTTP request (arg=1: handler panics); obj maxconns with
+//              4 TimeoutLimit.Return, 5 HTTP request (arg=1: handler panics), 6 cancel the request
+//              context of thread arg (its handler, if inside, stays inside); obj maxconns with
 //              n <= 0 is the documented "no limit" configuration
 // tr opcodes:  0 Schedule(arg=1: task panics), 1 ScheduleImmediately, 2 Wait
 // pl opcodes:  0 Get, 1 Put (most recently obtained resource), 2 advance clock by arg ns, 3 Put(nil)
@@ -170,6 +171,10 @@ func runLim(c Case, ctl *sched.Ctl, mon *monitor, wg *sync.WaitGroup) {
 			lims[k] = syncx.NewLimit(n)
 		}
 	}
+	// every request carries its own context; opcode 6 cancels the context of thread arg's current
+	// (or last) request - "the client went away" - while its handler stays inside the body
+	cancels := make([]context.CancelFunc, len(c.Scripts))
+	var cmu sync.Mutex
 	for tid, script := range c.Scripts {
 		tid, script := tid, script
 		k := c.instOf(tid)
@@ -249,7 +254,11 @@ func runLim(c Case, ctl *sched.Ctl, mon *monitor, wg *sync.WaitGroup) {
 					}
 				case 5:
 					rec := httptest.NewRecorder()
-					req := httptest.NewRequest(http.MethodGet, "/", nil)
+					rctx, cancel := context.WithCancel(context.Background())
+					cmu.Lock()
+					cancels[tid] = cancel
+					cmu.Unlock()
+					req := httptest.NewRequest(http.MethodGet, "/", nil).WithContext(rctx)
 					req.Header.Set("X-Tid", strconv.Itoa(tid))
 					req.Header.Set("X-Op", strconv.Itoa(i))
 					req.Header.Set("X-Panic", strconv.FormatInt(op[1], 10))
@@ -268,6 +277,17 @@ func runLim(c Case, ctl *sched.Ctl, mon *monitor, wg *sync.WaitGroup) {
 							r = -1
 						}
 					}()
+				case 6:
+					var f context.CancelFunc
+					cmu.Lock()
+					if t := int(op[1]); t >= 0 && t < len(cancels) {
+						f = cancels[t]
+					}
+					cmu.Unlock()
+					if f != nil {
+						f()
+					}
+					r = 1
 				}
 				ctl.Log(tid, "ret", i, r)
 			}
